@@ -156,6 +156,7 @@ def checked_before_trusted(p, rep, rid, f, require_type_guard=None):
                 if anode is None or cnode is None:
                     continue
                 if cfg.dominates(anode, cnode):
+                    common.thorough_paths(rep, f"{rid}:{f.name}:{var}:{need}", cfg, cfg.entry, cnode, [anode], dominator_verdict=True)
                     # the checked value must be the run-time value: no cast of var between entry and the assert
                     earlier_cast = [c for c, v2 in casts if v2 == var and cfg.dominates(cfg.node_for(c), anode) and c is not cn]
                     if earlier_cast:
